@@ -49,6 +49,14 @@ BAD_PAYLOAD = frame_raw(27, b"\x12\x02\xff\xfe")  # TextSensorStateResponse with
 SENSOR = frame(pb.SensorStateResponse(key=1, state=2.0))
 
 
+class _FakeTime:
+    def __init__(self, now):
+        self._now = now
+
+    def time(self):
+        return self._now
+
+
 class World:
     def __init__(self, *, noise_psk=None, expected_name=None, password=None, keepalive=20.0, addresses=None):
         self.loop = SimLoop().activate()
@@ -78,6 +86,8 @@ class World:
 
         self.ConnCls = LoggedConnection
         self._orig = (CN.hr.async_resolve_host, CN.aiohappyeyeballs.start_connection, CL.APIConnection)
+        self._orig_time = CN.time
+        CN.time = _FakeTime(1700000000)  # GetTimeRequest reads the wall clock: pinned
         CN.hr.async_resolve_host = self._resolve
         CN.aiohappyeyeballs.start_connection = self._start_connection
         CL.APIConnection = LoggedConnection
@@ -166,6 +176,7 @@ class World:
             self.loop.shutdown()
         finally:
             CN.hr.async_resolve_host, CN.aiohappyeyeballs.start_connection, CL.APIConnection = self._orig
+            CN.time = self._orig_time
 
 
 def outcome(task):
